@@ -93,7 +93,7 @@ PUBSUB_STEP = (" Plus pubsubstep: model-based stepper in a bubble with generator
 
 def pubsubstep(prof, quick, thorough):
     return {"name": "pubsubstep", "test": "TestPubSubStep", "steps": 40, "checks": {"quick": quick, "thorough": thorough},
-            "shards": {"quick": 8, "thorough": 16}, "env": {"VKIT_PROFILE": prof}}
+            "shards": {"quick": 8, "thorough": 16}, "env": {"VKIT_PROFILE": prof}, "stall_sig": prof + "/stall"}
 
 
 PUBSUB_CHURN = (" Plus pubsubchurn: a barrier-synchronised race lane in a bubble — 30-200 rounds per case in which 1-3 subscriptions that never receive leave (Add(-1) each or one Add(-k)) "
